@@ -133,3 +133,14 @@ Lemma sample_persistence :
   tuples 2 (get_m (pt_ops 2) (step (pt_ops 2) (pt_ops 1) (Some (pt_rops 1)) f (Insert 0 [5;5])) 1)
     = [[3;4]].
 Proof. split; [discriminate|vm_compute; reflexivity]. Qed.
+
+Lemma sample_snapshot_hyps :
+  (N.to_nat 1 < length (mains (init_fam (pt_ops 2) (pt_ops 1))))%nat /\
+  Forall (fun o => target_m o <> Some 1) [Insert 0 [5;6]; RemoveRestriction 0 5 0; Clear 0; InsertSub 1 [6]] /\
+  tuples 2 (get_m (pt_ops 2)
+     (fold_left (step (pt_ops 2) (pt_ops 1) (Some (pt_rops 1)))
+        [Insert 0 [7;7]; Clone 0 1; Insert 0 [5;6]; Clear 0] (init_fam (pt_ops 2) (pt_ops 1))) 1)
+  = [[7;7]].
+Proof.
+  split; [cbn; lia|]. split; [repeat constructor; discriminate|vm_compute; reflexivity].
+Qed.
